@@ -4,6 +4,7 @@ import (
 	"fmt"
 	"go/token"
 	"net/url"
+	"sort"
 	"strings"
 
 	"golang.org/x/tools/go/ssa"
@@ -283,6 +284,7 @@ func ruleC16(c *Ctx, r *Report) {
 
 	// ---- R4: endpoint
 	r.Floor("C16-R4", 3, "two request constructors + BaseURL store")
+	noRedirectRule(c, r, "C16-R4")
 	for _, f := range c.SortedFuncs() {
 		for _, nr := range callsIn(f, func(k string, _ *ssa.Call) bool {
 			return k == "net/http.NewRequestWithContext" || k == "net/http.NewRequest" || k == "(*net/http.Client).Get" || k == "net/http.Get" || k == "net/http.Post" || k == "(*net/http.Client).Post"
@@ -575,5 +577,92 @@ func c16Pairing(c *Ctx, r *Report, an *Anchors, a *atlasAnchors) {
 		r.Check(everyIter && inOK && outOK && fmtOK, "C16-R6", construct, c.InstrPos(pc),
 			"file i is processed into os.Create(Sprintf(\"%s.%d\", outputFile, i)) in the same iteration, once per file",
 			fmt.Sprintf("file/output pairing broken: everyIteration=%v inputIsFiles[i]=%v writerCreatedInIteration=%v %s", everyIter, inOK, outOK, detail))
+	}
+}
+
+// noRedirectRule (C16-R4 / C20-R3): a client that carries the digest transport must not
+// follow redirects - net/http follows a 3xx to any host, and the transport would then
+// answer THAT host's challenge with a response derived from the private key, and the
+// body it serves would be stored as the host's log. Every http.Client literal whose
+// Transport is (or wraps) the credential-holding transport sets CheckRedirect to a
+// function all of whose returns are non-nil errors.
+func noRedirectRule(c *Ctx, r *Report, rule string) {
+	n := 0
+	for _, f := range c.SortedFuncs() {
+		// http.Client literals: allocs of net/http.Client with a store to Transport
+		clients := map[ssa.Value]map[string]ssa.Value{}
+		allInstrs(f, func(i ssa.Instruction) {
+			st, ok := i.(*ssa.Store)
+			if !ok {
+				return
+			}
+			fa, ok := st.Addr.(*ssa.FieldAddr)
+			if !ok {
+				return
+			}
+			nt, fv := fieldOf(fa)
+			if nt == nil || fv == nil || nt.Obj().Pkg() == nil || nt.Obj().Pkg().Path() != "net/http" || nt.Obj().Name() != "Client" {
+				return
+			}
+			if clients[fa.X] == nil {
+				clients[fa.X] = map[string]ssa.Value{}
+			}
+			clients[fa.X][fv.Name()] = st.Val
+		})
+		var cls []ssa.Value
+		for cl := range clients {
+			cls = append(cls, cl)
+		}
+		sort.Slice(cls, func(i, j int) bool { return cls[i].Pos() < cls[j].Pos() })
+		for _, cl := range cls {
+			fields := clients[cl]
+			tr, hasTr := fields["Transport"]
+			if !hasTr {
+				continue
+			}
+			// credentialed: the transport is a *digest.Transport (possibly boxed)
+			if !strings.Contains(peel(tr).Type().String(), digestPkg+".Transport") {
+				continue
+			}
+			n++
+			construct := fmt.Sprintf("%s:credentialed-client#%d:no-redirect", f.Name(), n)
+			cr, hasCR := fields["CheckRedirect"]
+			okCR := false
+			detail := "CheckRedirect is not set: redirects are followed to any host"
+			if hasCR {
+				var fn *ssa.Function
+				switch x := peel(cr).(type) {
+				case *ssa.Function:
+					fn = x
+				case *ssa.MakeClosure:
+					fn, _ = x.Fn.(*ssa.Function)
+				case *ssa.ChangeType:
+					fn, _ = x.X.(*ssa.Function)
+				}
+				if fn != nil && fn.Blocks != nil {
+					okCR = true
+					allInstrs(fn, func(i ssa.Instruction) {
+						if ret, ok := i.(*ssa.Return); ok {
+							for _, res := range ret.Results {
+								if isErrorType(res.Type()) && isNilConst(resolveLocal(res)) {
+									okCR = false
+									detail = "CheckRedirect can return nil: some redirects are followed"
+								}
+							}
+						}
+					})
+				} else {
+					detail = "CheckRedirect is not a function of the package that can be inspected"
+				}
+			}
+			pos := "-"
+			if in, ok := cl.(ssa.Instruction); ok {
+				pos = c.InstrPos(in)
+			}
+			r.Check(okCR, rule, construct, pos, "the client that carries the credentials never follows a redirect: requests, and challenge answers, go to the constructed Atlas URL only", detail)
+		}
+	}
+	if n < 2 {
+		r.Bad(rule, "credentialed-clients", "-", fmt.Sprintf("only %d http.Client literal(s) with the digest transport found (4 today): anchor lost", n))
 	}
 }
